@@ -98,6 +98,7 @@ func main() {
 		os.Exit(1)
 	}
 	w.AllFuncs()
+	theWorld = w
 	exit := 0
 	for _, id := range ids {
 		t1 := time.Now()
